@@ -152,7 +152,7 @@ impl IndicatorInstance for ChandeMomentumOscillatorInstance {
 		// when the window holds no change at all, both sums are exactly zero whatever residue is left in them;
 		// otherwise the value on a flat window would be a ratio of residues instead of `0.0`
 		self.flat = if ch == 0. {
-			self.flat.saturating_add(1)
+			self.flat.saturating_add(1).min(self.cfg.period)
 		} else {
 			0
 		};
